@@ -205,21 +205,32 @@ const (
 
 // construct is one error-raising construct.
 type construct struct {
-	id       string
-	setup    []seg
-	text     string
-	anchor   int // offset in text of the position the convention names
-	kind     ckind
-	native   bool   // raised inside a native function called (not constructed) by the construct: innermost native frame optional
-	class    string // expected constructor; "" for thrown non-Error values
-	name     string // expected e.name when it differs from class
-	msg      string // exact message when the script supplies it
-	nonErr   bool   // a thrown value that is not an Error instance: Go side is a plain error with the value's ToString
-	group    string // input class used by signatures
-	nested   bool   // two error constructs in one expression (family nested)
-	natives  int    // native functions that are active (required frames) between the call site and the raise site: f.call, map, indirect eval
-	noTrace  bool   // trace not asserted (error object created elsewhere)
-	argCalls []int  // offsets in text of calls evaluated in the construct's own argument list (recorded before the anchor)
+	id          string
+	setup       []seg
+	text        string
+	anchor      int // offset in text of the position the convention names
+	kind        ckind
+	native      bool         // raised inside a native function called (not constructed) by the construct: innermost native frame optional
+	class       string       // expected constructor; "" for thrown non-Error values
+	name        string       // expected e.name when it differs from class
+	msg         string       // exact message when the script supplies it
+	nonErr      bool         // a thrown value that is not an Error instance: Go side is a plain error with the value's ToString
+	group       string       // input class used by signatures
+	nested      bool         // two error constructs in one expression (family nested)
+	natives     int          // native functions that are active (required frames) between the call site and the raise site: f.call, map, indirect eval
+	unprintable bool         // thrown non-Error value whose ToString throws: Run must return an error (text not asserted), no Go panic
+	nativeOpt   bool         // the frame of the raising native may be absent (pinned: Error("x") pops it; direct eval enters no scope)
+	inner       []innerFrame // frames active between the current frame and the raise site (outermost first)
+	noTrace     bool         // trace not asserted (error object created elsewhere)
+	argCalls    []int        // offsets in text of calls evaluated in the construct's own argument list (recorded before the anchor)
+}
+
+// innerFrame is a frame the construct itself makes active.
+type innerFrame struct {
+	name    string
+	native  bool
+	off     int // offset of the frame's site: in the construct text, or in the setup text
+	inSetup bool
 }
 
 func s(text string) seg                     { return seg{text: text} }
@@ -280,7 +291,7 @@ func buildConstructs() []construct {
 	add(construct{id: "toFixed-argcall", setup: vars("var n = 5;"), text: "n.toFixed(nop() || 21)", native: true, class: "RangeError", group: "number",
 		argCalls: []int{10}})
 	// syntax errors raised at run time
-	add(construct{id: "eval-syntax", text: `eval("var = 1")`, native: true, class: "SyntaxError", group: "syntax"})
+	add(construct{id: "eval-syntax", text: `eval("var = 1")`, native: true, nativeOpt: true, class: "SyntaxError", group: "syntax"})
 	add(construct{id: "new-Function-syntax", text: `new Function("var = 1")`, anchor: 4, class: "SyntaxError", group: "syntax"})
 	add(construct{id: "Function-syntax", text: `Function("var = 1")`, native: true, class: "SyntaxError", group: "syntax"})
 	add(construct{id: "new-RegExp-syntax", text: `new RegExp("(")`, anchor: 4, class: "SyntaxError", group: "regexp"})
@@ -314,7 +325,7 @@ func buildConstructs() []construct {
 		add(construct{id: "throw-new-" + n, text: `throw new ` + n + `("m")`, anchor: 10, class: n, msg: "m", group: "throw"})
 	}
 	for _, n := range nativeErrors {
-		add(construct{id: "throw-call-" + n, text: `throw ` + n + `("m")`, anchor: 6, native: true, class: n, msg: "m", group: "throw"})
+		add(construct{id: "throw-call-" + n, text: `throw ` + n + `("m")`, anchor: 6, native: true, nativeOpt: n == "Error", class: n, msg: "m", group: "throw"})
 	}
 	add(construct{id: "throw-new-argcall", setup: vars("function mm(){ return \"m\"; }"), text: `throw new TypeError(mm())`, anchor: 10, class: "TypeError", msg: "m",
 		group: "throw", argCalls: []int{20}})
@@ -332,6 +343,7 @@ func buildConstructs() []construct {
 		text: "throw em", class: "TypeError", name: "Custom", msg: "m", group: "throw-modified", noTrace: true})
 	add(construct{id: "throw-subclass", setup: segs(s(`function MyErr(m){ this.message = m; } MyErr.prototype = `), cn(`new Error()`), s(`; MyErr.prototype.name = "MyErr";`)),
 		text: `throw new MyErr("m")`, anchor: 10, nonErr: true, group: "throw-value"})
+	l = append(l, extraConstructs()...)
 	l = append(l, nestedConstructs()...)
 	return l
 }
@@ -728,6 +740,7 @@ func (g *gen) level(w *tbuf, pf *frame, lvl int) {
 
 func (g *gen) construct(w *tbuf, fr *frame, lvl int) {
 	k := g.k
+	so := w.off()
 	for _, sg := range k.setup {
 		o := w.put(sg.text)
 		if sg.call {
@@ -750,12 +763,24 @@ func (g *gen) construct(w *tbuf, fr *frame, lvl int) {
 	case ckUnpos:
 		fr.events = append(fr.events, event{kind: evUnpos, off: o, end: o + len(k.text) - 1})
 	}
+	for _, in := range k.inner {
+		if in.native {
+			g.pushNative()
+			continue
+		}
+		f := g.push(in.name, w.f)
+		base := o
+		if in.inSetup {
+			base = so
+		}
+		f.events = append(f.events, event{kind: evRef, off: base + in.off})
+	}
 	for i := 0; i < k.natives; i++ {
 		g.pushNative()
 	}
 	if k.native {
 		f := g.pushNative()
-		f.optional = true
+		f.optional = k.nativeOpt
 	}
 }
 
